@@ -101,6 +101,67 @@ impl Subscription {
     async fn names(&self) -> impl Stream<Item = String> { stream::iter(vec!["a".to_string()]) }
 }
 
+// ---- THIRD schema variant: the same field set, but every root comes out of a merge derive — the
+// Query and Mutation roots are `#[derive(MergedObject)]` of `#[Object]` parts, the Subscription root is a
+// `#[derive(MergedSubscription)]` of two `#[Subscription]` parts.  The `MetaType::Object` of such a root is
+// written by derive/src/merged_object.rs / merged_subscription.rs, not by the `#[Object]` / `#[Subscription]`
+// macros: its flags (`is_subscription`, which `visit_selection` consults) are that code's business.
+struct QPartA;
+#[Object]
+impl QPartA {
+    async fn n(&self, x: i32) -> Option<i32> { Some(x) }
+    async fn opt(&self, x: Option<i32>, s: Option<String>, b: Option<bool>, f: Option<f64>, id: Option<ID>) -> Option<String> { let _ = (x, s, b, f, id); None }
+    async fn def(&self, #[graphql(default = 7)] x: i32) -> i32 { x }
+    async fn list(&self, xs: Vec<Option<i32>>) -> i32 { xs.len() as i32 }
+    async fn ll(&self, xss: Option<Vec<Option<Vec<i32>>>>) -> i32 { let _ = xss; 0 }
+}
+struct QPartB;
+#[Object]
+impl QPartB {
+    async fn pt(&self, p: Pt, ps: Option<Vec<Pt>>) -> i32 { let _ = (p.tag, p.sub, p.cs, ps); p.x + p.y }
+    async fn one(&self, o: One) -> i32 { match o { One::A(a) => a, One::B(_) => 0 } }
+    async fn color(&self, c: Color, cs: Option<Vec<Option<Color>>>) -> Color { let _ = cs; c }
+    async fn node(&self, id: ID) -> Option<Node> { let _ = id; Some(Node::Dog(Dog)) }
+}
+struct QPartC;
+#[Object]
+impl QPartC {
+    async fn pet(&self) -> Option<Pet> { Some(Pet::Dog(Dog)) }
+    async fn dog(&self) -> Option<Dog> { Some(Dog) }
+    async fn cat(&self) -> Option<Cat> { Some(Cat) }
+    async fn person(&self) -> Option<Person> { Some(Person) }
+    async fn nodes(&self) -> Vec<Node> { vec![Node::Dog(Dog), Node::Cat(Cat)] }
+}
+#[derive(MergedObject)]
+struct MQuery(QPartA, QPartB, QPartC);
+
+struct MPartA;
+#[Object]
+impl MPartA {
+    async fn set_n(&self, x: i32) -> i32 { x }
+    async fn up(&self, file: Upload) -> bool { let _ = file; true }
+}
+struct MPartB;
+#[Object]
+impl MPartB {
+    async fn reset(&self) -> bool { true }
+}
+#[derive(MergedObject)]
+struct MMutation(MPartA, MPartB);
+
+struct SPartA;
+#[Subscription]
+impl SPartA {
+    async fn ticks(&self, #[graphql(default = 1)] n: i32) -> impl Stream<Item = i32> { stream::iter(0..n.min(2)) }
+}
+struct SPartB;
+#[Subscription]
+impl SPartB {
+    async fn names(&self) -> impl Stream<Item = String> { stream::iter(vec!["a".to_string()]) }
+}
+#[derive(MergedSubscription)]
+struct MSubscription(SPartA, SPartB);
+
 struct Nop;
 #[async_graphql::async_trait::async_trait]
 impl CustomDirective for Nop {
@@ -228,13 +289,16 @@ fn arg_sexp(name: &str, ty: &str, has_default: bool) -> Sexp {
 }
 
 /// `(vschema (schema QUERY MUTATION SUBSCRIPTION (types…)) (dirs (dirdef NAME REPEATABLE (locs…) (args…))…)
-///           (inputs (input NAME ONEOF (arg…)…)…))`
+///           (inputs (input NAME ONEOF (arg…)…)…) (subflag NAME…))`
+/// `subflag`: the names of the `MetaType::Object`s registered with `is_subscription: true` — the ONLY thing
+/// by which `visit_selection` recognises a subscription root (it never compares with `subscription_type`).
 /// where a type is `(type NAME KIND (fields…) (implements…) (members = possible types…) (values…))`
 /// as in Core/Types.lean.  Everything sorted by name (the registry keeps maps).
 fn dump_registry(reg: &Registry) -> Sexp {
     let opt = |o: &Option<String>| o.as_ref().map(|s| st(s.clone())).unwrap_or(atom("none"));
     let mut types = vec![];
     let mut inputs = vec![];
+    let mut subflag = vec![];
     let mut names: Vec<&String> = reg.types.keys().collect();
     names.sort();
     for name in names {
@@ -264,7 +328,12 @@ fn dump_registry(reg: &Registry) -> Sexp {
                 v.sort();
                 ("enum", list(vec![]), list(vec![]), list(v.into_iter().map(st).collect()))
             }
-            MetaType::Object { fields, .. } => ("object", out_fields(fields), list(vec![]), list(vec![])),
+            MetaType::Object { fields, is_subscription, .. } => {
+                if *is_subscription {
+                    subflag.push(st(name.clone()));
+                }
+                ("object", out_fields(fields), list(vec![]), list(vec![]))
+            }
             MetaType::Interface { fields, possible_types, .. } => ("interface", out_fields(fields), sorted(possible_types), list(vec![])),
             MetaType::Union { possible_types, .. } => ("union", list(vec![]), sorted(possible_types), list(vec![])),
             MetaType::InputObject { input_fields, oneof, .. } => {
@@ -298,6 +367,7 @@ fn dump_registry(reg: &Registry) -> Sexp {
             node("schema", vec![st(reg.query_type.clone()), opt(&reg.mutation_type), opt(&reg.subscription_type), list(types)]),
             node("dirs", dirs),
             node("inputs", inputs),
+            node("subflag", subflag),
         ],
     )
 }
